@@ -1,13 +1,13 @@
 --------------------------- MODULE IntMathWideLaws ---------------------------
 (* Laws of BigNat.tla and IntMathWide.tla, checked by TLC with a tiny limb base
-   (cfg: Base <- SmallBase) so that numbers of a few hundred have several limbs
+   (cfg: LimbBits <- SmallLimbBits, base 4) so that numbers of a few hundred have several limbs
    and every carry/borrow path is taken: the BigNat operations agree with TLC's
    own integer arithmetic and the W-operators agree with IntMath.tla.
    State = one (a, b, q) triple. *)
 EXTENDS IntMathWide, TLC
 
 CONSTANTS N, BreakSub      \* BreakSub: vacuity guard (drops the borrow)
-SmallBase == 4
+SmallLimbBits == 2
 
 VARIABLES a, b, q
 vars == <<a, b, q>>
@@ -38,7 +38,7 @@ ZLaws ==
 ASSUME PowLaws == \A k \in 0..64 :
   /\ IsNat(Pow2N[k])
   /\ (k <= 30 => Pow2N[k] = NOfInt(P2[k]))
-  /\ (k > 0 => Pow2N[k] = MulN(Pow2N[k - 1], NOfInt(2)))
+  /\ (k > 0 => Pow2N[k] = AddN(Pow2N[k - 1], Pow2N[k - 1]))
 ASSUME BoundTable == \A T \in {"i8", "u8", "i16", "u16"} : MinZ(T) = Z(Min(T)) /\ MaxZ(T) = Z(Max(T))
 BoundLaws == \A T \in {"i8", "u8", "i16", "u16"} :
   /\ (RepZ(T, Z(a * 50 + b)) <=> Representable(T, a * 50 + b))
